@@ -7,7 +7,7 @@ CFG = dict(
               "C02.session_registered_kept", "C02.session_fired_registered", "C02.session_open_entry_redelivered", "C02.session_late_row_redelivered_run", "C02.sliding_late_row_redelivered_run"],
     unproved=[],
     rule="tumbling (ALLOWEDLATENESS in {0,1,size/2,size,3size,20size}), sliding (lateness in {0,1,slide,3size}) and session (lateness in {0,1,timeout,5timeout,40timeout}; twin and ladder scenarios: several fired sessions of one key open for late rows at once) op sequences with late rows placed around "
-         "MAXOUTOFORDERNESS and around window_end+ALLOWEDLATENESS, far-future and timestamp-less rows, lagging trigger (bursts of adds with undelivered watermarks), Adds in the unlock gap; distinct = distinct (cfg, op list)",
+         "MAXOUTOFORDERNESS and around window_end+ALLOWEDLATENESS, far-future and timestamp-less rows, lagging trigger (bursts of adds with undelivered watermarks), Adds in the unlock gap; distinct = distinct (cfg, op list) Added late: op `reset` (Window.Reset and reuse). Every fifth case runs under WithHighPerformance (`preset high`), for C05/C06/C12/C13/C14/C16/C20 another fifth under WithLowLatency (`preset low`); every seventh case follows a noise prelude (failing statements, malformed rows, panicking sink / function in other instances).",
     assumptions=["'inside the allowance' is read per window: current watermark < window_end + ALLOWEDLATENESS (the literal 'older than watermark - ALLOWEDLATENESS' contradicts the re-delivery clause for rows early in a long window)",
                  "idle timeout: the model's tick carries the flag 'IDLETIMEOUT configured and elapsed' and the wall-clock reading; *_no_early_fire_full cover such ticks (the result is then backed by that reading minus MAXOUTOFORDERNESS); whether the flag is computed correctly from lastEventTime is tied by correspondence (idle ops of the harness) only",
                  "mutex mutual exclusion; deterministic drive of the real windows without their goroutines"],
